@@ -59,3 +59,9 @@ impl<K: Ord> BTreeSet<K> {
 pub assume_specification<T, F: FnOnce(T) -> bool>[ Option::<T>::is_some_and ](o: Option<T>, f: F) -> (r: bool)
     requires o is Some ==> f.requires((o->Some_0,)),
     ensures match o { Some(v) => f.ensures((v,), r), None => !r };
+
+// Option::map_or_else: "Computes a default function result (if none), or applies a different
+// function to the contained value (if any)" — exactly one of the two closures is called
+pub assume_specification<T, U, DF: FnOnce() -> U, F: FnOnce(T) -> U> [std::option::Option::<T>::map_or_else] (o: std::option::Option<T>, default: DF, f: F) -> (r: U)
+    requires match o { Some(x) => f.requires((x,)), None => default.requires(()) },
+    ensures match o { Some(x) => f.ensures((x,), r), None => default.ensures((), r) };
